@@ -26,6 +26,7 @@ type Verifier struct {
 	encErrs     map[string]error
 	unfolds     map[string]*Sig // F -> F.unfold signature
 	declText    string
+	macroMemo   map[string]bool
 	qaxioms     []*qaxiom
 	wantModel   bool
 	seed        int
@@ -37,7 +38,7 @@ func newVerifier(tier string) (*Verifier, error) {
 		return nil, err
 	}
 	V := &Verifier{P: P, Tier: tier, usedAsValue: map[string]bool{}, callGraph: map[string]map[string]bool{},
-		missing: map[string]int{}, encs: map[string]*fnEnc{}, encErrs: map[string]error{}, unfolds: map[string]*Sig{}}
+		missing: map[string]int{}, encs: map[string]*fnEnc{}, encErrs: map[string]error{}, unfolds: map[string]*Sig{}, macroMemo: map[string]bool{}}
 	V.Timeout = 10 * time.Second
 	if tier == "thorough" {
 		V.Timeout = 120 * time.Second
@@ -54,6 +55,16 @@ func newVerifier(tier string) (*Verifier, error) {
 		if c.Head() == "echo" && len(c.List) == 2 && strings.HasPrefix(strings.Trim(c.List[1].Atom, "\""), "bundle:") {
 			f := strings.Fields(strings.TrimPrefix(strings.Trim(c.List[1].Atom, "\""), "bundle:"))
 			V.U.bundles[f[0]] = f[1:]
+		}
+	}
+	for _, c := range V.U.prelude {
+		if c.Head() == "echo" && len(c.List) == 2 && strings.HasPrefix(strings.Trim(c.List[1].Atom, "\""), "strlit:") {
+			body := strings.TrimPrefix(strings.Trim(c.List[1].Atom, "\""), "strlit:")
+			i := strings.Index(body, " ")
+			sym, lit := body[:i], body[i+1:]
+			V.U.strlits[lit] = sym
+			V.U.strOrder = append(V.U.strOrder, lit)
+			V.U.Sigs[sym] = &Sig{Name: sym, Res: "Str"}
 		}
 	}
 	for name, sg := range V.U.Sigs {
@@ -237,7 +248,7 @@ func (V *Verifier) instantiateUnfolds(text string, fuel int) string {
 		}
 		apps := map[string]*SX{}
 		for _, c := range cmds {
-			findApps(c, want, apps)
+			V.findAppsM(c, want, apps, 0)
 		}
 		var keys []string
 		for k := range apps {
@@ -290,6 +301,11 @@ func (V *Verifier) prepare() {
 		core.WriteString("\n")
 	}
 	V.declText = core.String()
+	// precompute (the discharge goroutines only read it)
+	collectSigs(cmds, V.U.Sigs)
+	for name := range V.U.Sigs {
+		V.macroHasUnfoldable(name, map[string]bool{})
+	}
 }
 
 // discharge runs all obligations in parallel.
@@ -419,4 +435,59 @@ func (V *Verifier) relevantAxioms(body string) string {
 		}
 	}
 	return out.String()
+}
+
+// macroHasUnfoldable: does the define-fun (transitively) mention a symbol
+// that has an unfolding?
+func (V *Verifier) macroHasUnfoldable(name string, seen map[string]bool) bool {
+	if v, ok := V.macroMemo[name]; ok {
+		return v
+	}
+	if seen[name] {
+		return false
+	}
+	seen[name] = true
+	sg := V.U.Sigs[name]
+	res := false
+	if sg != nil && sg.Body != nil && !strings.HasSuffix(name, ".unfold") {
+		for _, s := range allSyms(sg.Body) {
+			if _, ok := V.unfolds[s]; ok {
+				res = true
+				break
+			}
+			if s2 := V.U.Sigs[s]; s2 != nil && s2.Body != nil && s != name && V.macroHasUnfoldable(s, seen) {
+				res = true
+				break
+			}
+		}
+	}
+	V.macroMemo[name] = res
+	return res
+}
+
+// findAppsM is findApps that looks through define-fun macros.
+func (V *Verifier) findAppsM(e *SX, want map[string]bool, out map[string]*SX, depth int) {
+	if !e.IsL || depth > 6 {
+		return
+	}
+	h := e.Head()
+	if h != "" && want[h] && len(e.List) > 1 {
+		out[e.String()] = e
+	}
+	switch h {
+	case "forall", "exists", "let":
+		return
+	}
+	if h != "" && len(e.List) > 1 {
+		if sg := V.U.Sigs[h]; sg != nil && sg.Body != nil && len(sg.Params) == len(e.List)-1 && V.macroHasUnfoldable(h, map[string]bool{}) {
+			m := map[string]*SX{}
+			for i, p := range sg.Params {
+				m[p] = e.List[i+1]
+			}
+			V.findAppsM(sxSubst(sg.Body, m), want, out, depth+1)
+		}
+	}
+	for _, c := range e.List {
+		V.findAppsM(c, want, out, depth)
+	}
 }
